@@ -24,7 +24,7 @@ inductive Op where
   | clear (l : Nat) (poison : Nat → Nat)
   | front (l : Nat)
   | back (l : Nat)
-  | foreach (l : Nat) (fwd : Bool) (visit : Nat → Nat → Int × Bool)
+  | foreach (l : Nat) (fwd : Bool) (visit : Nat → Nat → Int × Bool) (poison : Nat → Nat)
   | find (l : Nat) (fwd : Bool) (key : Nat → Int) (probe : Int)
 
 inductive Res where
@@ -74,8 +74,8 @@ def step (s : St) : Op → Option (St × Res)
     some ({ m := r.1, hd := setHd s.hd l r.2.1 }, .cleared r.2.2)
   | .front l => some (s, .ptr (front s.m (s.hd l)))
   | .back l => some (s, .ptr (back s.m (s.hd l)))
-  | .foreach l fwd visit =>
-    let r := foreach s.m (s.hd l) fwd visit
+  | .foreach l fwd visit poison =>
+    let r := foreach s.m (s.hd l) fwd visit poison
     some ({ m := r.1, hd := setHd s.hd l r.2.1 }, .visited r.2.2.1 r.2.2.2)
   | .find l fwd key probe => some (s, .ptr (find s.m (s.hd l) fwd key probe))
 
@@ -125,7 +125,7 @@ def refStep (q : Nat → List Nat) : Op → (Nat → List Nat) × Res
   | .clear l _ => (setSeq q l [], .cleared (q l))
   | .front l => (q, .ptr (q l).head?)
   | .back l => (q, .ptr (q l).getLast?)
-  | .foreach l fwd visit =>
+  | .foreach l fwd visit _ =>
     let r := refForeach visit (if fwd then q l else (q l).reverse) 0
     (setSeq q l (if fwd then r.2.2 else r.2.2.reverse), .visited r.1 r.2.1)
   | .find l fwd key probe => (q, .ptr ((if fwd then q l else (q l).reverse).find? (fun e => key e = probe)))
@@ -145,7 +145,7 @@ def Enabled (n : Nat) (ha : Nat → Nat) (q : Nat → List Nat) : Op → Prop
     l < n ∧ b ∈ q l ∧ e ≠ 0 ∧ ∀ j, j < n → e ≠ ha j ∧ e ∉ q j
   | .erase l e => l < n ∧ e ∈ q l
   | .popFront l | .popBack l | .reverse l | .sort l _ | .clear l _ | .front l | .back l
-  | .foreach l _ _ | .find l _ _ _ => l < n
+  | .foreach l _ _ _ | .find l _ _ _ => l < n
   | .concat a b | .swap a b => a < n ∧ b < n ∧ a ≠ b
 
 def EnabledRun (n : Nat) (ha : Nat → Nat) (q : Nat → List Nat) : List Op → Prop
